@@ -223,12 +223,16 @@ func cmdRoute(args []string) {
 			// ---- sender ----
 			var recvBytes []byte
 			var recvT term
-			switch r.intn(3) {
-			case 0:
+			switch r.intn(10) {
+			case 9:
+				// a receiver a client registered as the JSON literal null (or another non-receiver value)
+				recvBytes = []byte(pick(r, []string{"null", "5", "[1]", "true"}))
+				recvT = C("RNone")
+			case 0, 1, 2:
 				name := pick(r, tagPool)
 				recvBytes, _ = json.Marshal(name)
 				recvT = C("RLogical", S(name))
-			case 1:
+			case 3, 4, 5:
 				ty := pick(r, []string{"poll", "http", "pigeon"})
 				data := pick(r, []string{`{"group":"g","id":"i"}`, `{"url":"http://h/x"}`, `{}`, `null`, `[1]`})
 				recvBytes, _ = json.Marshal(&receiver.Recv{Type: ty, Data: json.RawMessage(data)})
